@@ -1078,7 +1078,66 @@ fn mv_poly<F: PrimeField>(rep: &mut Report, rng: &mut Rng, args: &Args, fname: &
 
 // ------------------------------------------------------------------------------------------------
 
+/// Arguments that do not denote an operation on multilinear extensions of the declared size - a table, point or
+/// partial point of the wrong length, a relabelling window that leaves the variable range or overlaps, operands
+/// over different numbers of variables - are documented to be refused (assertions). Returning a value instead
+/// would give an object whose table and number of variables disagree, so "returned" is the violation here.
+fn refusals<F: PrimeField>(rep: &mut Report, rng: &mut Rng, args: &Args, fname: &'static str) {
+    rep.config(&format!("{fname}/refusals"));
+    rep.require("refusal: argument of the wrong size (must be refused)");
+    for it in 0..args.pick(300, 3000) {
+        let nv = 1 + rng.gen_range(0..5usize);
+        let n = 1usize << nv;
+        let t: Vec<F> = (0..n).map(|_| gen_elem(rng)).collect();
+        let dense = DenseMle { evaluations: t.clone(), num_vars: nv };
+        let sparse = SparseMle::from_evaluations(nv, &t.iter().copied().enumerate().collect::<Vec<_>>());
+        let other_nv = if it % 2 == 0 { nv + 1 } else { nv - 1 };
+        let long: Vec<F> = (0..nv + 1).map(|_| gen_elem(rng)).collect();
+        let wrong: Vec<F> = (0..other_nv).map(|_| gen_elem(rng)).collect();
+        let t2: Vec<F> = (0..1usize << other_nv).map(|_| gen_nonzero(rng)).collect();
+        let dense2 = DenseMle { evaluations: t2.clone(), num_vars: other_nv };
+        let sparse2 = SparseMle::from_evaluations(other_nv, &t2.iter().copied().enumerate().collect::<Vec<_>>());
+        // window [b, b + k) with b + k = num_vars + 1 and a < b (the library orders the two windows first, so a < b
+        // keeps this the window that is checked)
+        let k = 1 + rng.gen_range(0..nv);
+        let a = rng.gen_range(0..nv - k + 1);
+        let cases: Vec<(&str, bool)> = vec![
+            ("dense/from_evaluations_vec (length != 2^num_vars)", guard(|| DenseMle::from_evaluations_vec(nv, t[..n - 1].to_vec())).is_ok()),
+            ("dense/from_evaluations_vec (length 2^(num_vars+1))", guard(|| DenseMle::from_evaluations_vec(nv, [t.clone(), t.clone()].concat())).is_ok()),
+            ("dense/evaluate (point of the wrong length)", guard(|| dense.evaluate(&wrong)).is_ok()),
+            ("sparse/evaluate (point of the wrong length)", guard(|| sparse.evaluate(&wrong)).is_ok()),
+            ("dense/fix_variables (more values than variables)", guard(|| dense.fix_variables(&long)).is_ok()),
+            ("sparse/fix_variables (more values than variables)", guard(|| sparse.fix_variables(&long)).is_ok()),
+            ("dense/relabel (window beyond the last variable)", guard(|| dense.relabel(a, nv - k + 1, k)).is_ok()),
+            ("sparse/relabel (window beyond the last variable)", guard(|| sparse.relabel(a, nv - k + 1, k)).is_ok()),
+            ("dense/add (different numbers of variables)", guard(|| &dense + &dense2).is_ok()),
+            ("sparse/add (different numbers of variables)", guard(|| &sparse + &sparse2).is_ok()),
+            ("dense/sub (different numbers of variables)", guard(|| &dense - &dense2).is_ok()),
+        ];
+        for (what, accepted) in cases {
+            // a window that happens to be valid (a + k <= b and b + k <= nv cannot hold here: b + k = nv + 1) is impossible,
+            // every case above is invalid by construction
+            rep.class("refusal: argument of the wrong size (must be refused)");
+            rep.eval(digest(&("mle-refusal", fname, it, what)), true);
+            rep.check(!accepted, || format!("mle/{what}/accepts-invalid-argument"), || json!({"field": fname, "num_vars": nv, "other_num_vars": other_nv, "a": a, "k": k}));
+        }
+        // overlapping relabel windows (a < b < a + k), both inside the variable range
+        if nv >= 3 {
+            let k2 = 2;
+            let a2 = rng.gen_range(0..nv - 2);
+            let b2 = a2 + 1;
+            if b2 + k2 <= nv {
+                for (what, accepted) in [("dense/relabel (overlapping windows)", guard(|| dense.relabel(a2, b2, k2)).is_ok()), ("sparse/relabel (overlapping windows)", guard(|| sparse.relabel(a2, b2, k2)).is_ok())] {
+                    rep.eval(digest(&("mle-refusal", fname, it, what)), true);
+                    rep.check(!accepted, || format!("mle/{what}/accepts-invalid-argument"), || json!({"field": fname, "num_vars": nv, "a": a2, "b": b2, "k": k2}));
+                }
+            }
+        }
+    }
+}
+
 fn add_field<F: PrimeField>(v: &mut Vec<Item>, fname: &'static str) {
+    v.push(Item::new(format!("refusals/{fname}"), move |r, g, a| refusals::<F>(r, g, a, fname)));
     v.push(Item::new(format!("dense-eval/{fname}"), move |r, g, a| dense_eval::<F>(r, g, a, fname)));
     v.push(Item::new(format!("sparse-eval/{fname}"), move |r, g, a| sparse_eval::<F>(r, g, a, fname)));
     v.push(Item::new(format!("dense-relabel-concat/{fname}"), move |r, g, a| dense_relabel_concat::<F>(r, g, a, fname)));
